@@ -45,7 +45,8 @@ def cases(tier, seed):
     for when in (-1, 0, 1, 3):
         for where in ('loop', 'inner'):
             for how in ('forwarded', 'installed'):
-                out.append({'k': 'late', 'when': when, 'where': where, 'how': how})
+                for who in ('self', 'other'):      # installed by the program's own thread / by another thread (as the poll's worker does)
+                    out.append({'k': 'late', 'when': when, 'where': where, 'how': how, 'who': who})
     for name in names:
         cand = candidates(name)
         for i, c in enumerate(cand):
@@ -193,7 +194,12 @@ def late_config(ctx, desc):
 
     def hook(i):
         if i == when:
-            agent.install([trig])
+            if desc.get('who') == 'other':
+                t = threading.Thread(target=agent.install, args=([trig],), name='config-worker')
+                t.start()
+                t.join()
+            else:
+                agent.install([trig])
     with rig.VirtualClock():
         if how == 'installed':
             from ..drive import run_installed
@@ -201,7 +207,7 @@ def late_config(ctx, desc):
         else:
             run = Forwarder({path}, agent.handler).call(ns['main'], hook)
     ctx.case()
-    ctx.nt(('late', when, where, how))
+    ctx.nt(('late', when, where, how, desc.get('who')))
     expected = 4 if when == -1 else 4 - when     # the line is reached once per iteration i >= when
     got = len(agent.snapshots)
     ctx.outcome(('late', when, where, got))
